@@ -194,6 +194,11 @@ def customs(rng, tier):
                           [["accept", "c1", 2000], ["recv", "c1", 1, 1000], ["send", "c1", S.frame(S.OPEN, S.open_body())[:25].hex(), 0],
                            ["sleep", 30], ["api", api]]))
         sid += 1
+        # the stop arrives while the peer is just starting (the outbound FSM between Idle and Connect, its dial in flight): a
+        # narrow window, so many tiny scenarios; what they leave behind shows in the goroutine census and the judges
+        for _ in range(15):
+            out.append(Custom(sid, "stop.while-starting." + api, [["api", api]]))
+            sid += 1
         # the connect is stalled (SYNs unanswered) when the stop arrives
         out.append(Custom(sid, "stop.connect-stalled." + api, [["sleep", 80], ["api", api, 3000]], start_stalled=True))
         sid += 1
@@ -245,7 +250,19 @@ def known_finding_items():
 
 
 def conv_judge(c, e, o, r):
-    return shutdown_judge(r, steps=c.scenario()["steps"])
+    bad = shutdown_judge(r, steps=c.scenario()["steps"])
+    if "unencodable-open" in getattr(c, "tag", ""):
+        # corebgp cannot send an OPEN on these connections: each must be closed at once, not merely some time later when a
+        # finalizer collects a dropped socket
+        for cn in r["conns"]:
+            if cn.get("refused"):
+                continue
+            if cn["msgs"]:
+                bad.append("connection %s: bytes were sent although the capabilities do not fit an OPEN" % cn["name"])
+            elif not cn["eof"] or cn.get("read_err") == "closed-locally" or cn["eof_at"] - cn["opened_at"] > 250:
+                bad.append("connection %s obtained with capabilities that cannot be encoded was left open (closed after %s ms)"
+                           % (cn["name"], (cn["eof_at"] - cn["opened_at"]) if cn["eof"] else "never"))
+    return bad
 
 
 def race_run(scenarios):
